@@ -23,7 +23,16 @@ def gen_cases(tier, rng):
         for vs, d, u in oracles.all_admgs(n, acyclic=False):
             for a, b, C in qs(vs):
                 yield {"nodes": vs, "directed": d, "undirected": u, "a": a, "b": b, "C": C}
-    for _ in range(700 if tier == "quick" else 20000):
+    # every DAG on 4 nodes (no bidirected edge) x every query: 543 x 24
+    for vs, d, u in oracles.all_admgs(4):
+        if u:
+            continue
+        for a, b, C in qs(vs):
+            yield {"nodes": vs, "directed": d, "undirected": u, "a": a, "b": b, "C": C}
+        u1 = [tuple(rng.sample(vs, 2))]           # the same DAG with one bidirected edge
+        for a, b, C in qs(vs):
+            yield {"nodes": vs, "directed": d, "undirected": u1, "a": a, "b": b, "C": C}
+    for _ in range(2500 if tier == "quick" else 30000):
         n = rng.choice([4, 4, 5])
         acyc = rng.random() < 0.6
         vs, d, u = oracles.random_admg(rng, n, p_d=rng.choice([0.3, 0.5]), p_u=rng.choice([0.2, 0.4]), acyclic=acyc)
